@@ -118,6 +118,11 @@ def getItem {α : Type} : Ten α → List Ix → Option (Ten α)
     some (.mat ((sliceList m a b).map (fun row => sliceList row c d)))
   | .mat _, _ :: _ :: _ :: _ => none
 
+/-- `expr[index1][index2]...`: successive indexing -/
+def getChain {α : Type} (t : Ten α) : List (List Ix) → Option (Ten α)
+  | [] => some t
+  | ix :: rest => (getItem t ix).bind (fun t' => getChain t' rest)
+
 /-! ### evaluation of arrays of expressions -/
 
 section
@@ -142,6 +147,15 @@ def indexedFunction (T : FunTab K) (sig : List (List String)) (consts : List (St
     (repl : List (String × String)) (t : Ten Expr) (ix : List Ix) (args : List (Val K)) :
     Option (Ten K) :=
   (getItem (t.map (prepare sig repl)) ix).bind
+    (fun t' => tensorFunction T (varsSig sig) consts [] t' args)
+
+/-- `expr[index1][index2]...(*args)`: every `__getitem__` indexes the sympy array of the expression
+before it and passes `signature=self.vars` and the same constants and user functions on; the
+prepared array stays what it is (theorem `prepare_varsSig`) -/
+def chainFunction (T : FunTab K) (sig : List (List String)) (consts : List (String × Val K))
+    (repl : List (String × String)) (t : Ten Expr) (chain : List (List Ix)) (args : List (Val K)) :
+    Option (Ten K) :=
+  (getChain (t.map (prepare sig repl)) chain).bind
     (fun t' => tensorFunction T (varsSig sig) consts [] t' args)
 
 end
